@@ -1114,6 +1114,10 @@ func (e *Engine) seqElem(st *State, seq *Term, idx *Term, elemT types.Type) *Ter
 	case isByteSlice(elemT):
 		e.C.DeclareFun("seq_bytes", []Sort{"Obj", BV(64)}, SBytes)
 		t = mk(SBytes, fmt.Sprintf("(seq_bytes %s %s)", seq.T, idx.T))
+	case isByteArrayType(elemT):
+		// fixed-size byte arrays (hashes, addresses) are strings of that length
+		e.C.DeclareFun("seq_str", []Sort{"Obj", BV(64)}, SStr)
+		t = &Term{S: "Arr", T: fmt.Sprintf("(seq_str %s %s)", seq.T, idx.T)}
 	default:
 		e.C.DeclareFun("seq_obj", []Sort{"Obj", BV(64)}, "Obj")
 		t = mk("Obj", fmt.Sprintf("(seq_obj %s %s)", seq.T, idx.T))
